@@ -191,6 +191,28 @@ def total_energy(h, part="tpi", seed=0):
         h.eq("System.E_pot = sum of the contributions", E, tot)
 
 
+def line_load(h, interp="Quaternion", nel=1, seed=0):
+    """rod with a line-distributed dead load: power of the load = minus the rate of its potential; System.E_pot evaluates"""
+    from cardillo import System
+    from cardillo.rods.force_line_distributed import Force_line_distributed
+    rod, Q, nn = lib.make_rod(h, interp=interp, mixed=False, p=1, nel=nel, Q="curved", seed=seed, assemble=False)
+    F = h.vec("F", 3)
+    load = Force_line_distributed(F, rod)
+    sysm = System()
+    sysm.add(rod, load)
+    lib.assemble(sysm)
+    t = h.real("t")
+    q = lib.rod_state(h, rod, nn)
+    u = h.vec("u", sysm.nu)
+    E = h.call("System.E_pot evaluates with a line load", sysm.E_pot, t, q)
+    if E is None:
+        return
+    qd = sysm.q_dot(t, q, u)
+    P = load.h(t, q[load.qDOF], u[load.uDOF]) @ u[load.uDOF]
+    h.eq("line load: power = - d/dt E_pot", P, -h.D(lambda q_: load.E_pot(t, q_[load.qDOF]), (q,), (qd,)))
+    h.eq("System.E_pot = rod strain energy + load potential", E, rod.E_pot(t, q[rod.qDOF]) + load.E_pot(t, q[load.qDOF]))
+
+
 def cases(tier, seed):
     T = 120 if tier == "quick" else 900
     cs = []
@@ -207,6 +229,9 @@ def cases(tier, seed):
             for axis in ((seed % 3,) if tier == "quick" else (0, 1, 2)):
                 cs.append(Case(f"revolute/{first}/{law}/ax{axis}", revolute_energy,
                                dict(first=first, law=law, axis=axis, seed=seed, concrete_orientation=(tier == "quick")), timeout=T, hard=T * 10))
+    for interp in ("Quaternion", "R12"):
+        for nel in (1, 2):
+            cs.append(Case(f"line_load/{interp}/nel{nel}", line_load, dict(interp=interp, nel=nel, seed=seed), timeout=T))
     cs.append(Case("system/E_pot/tpi", total_energy, dict(part="tpi", seed=seed), timeout=T))
     cs.append(Case("system/E_pot/revolute", total_energy, dict(part="revolute", seed=seed), timeout=T))
     return cs
